@@ -144,8 +144,9 @@ def instances(tier):
             polys.append((2, deg_exact, bo, False, 1))
             polys.append((2, deg_exact, bo, True, None))
             polys.append((1, deg_exact, bo, False, 2))
+    # two variables, fixed depth: the per-component rescaling of the step (|y_j| > 1, 0 < |y_j| < dy) must not carry over to the next component
+    polys.append((2, 3, 2, False, 3))
     if not quick:
-        polys.append((2, 3, 2, False, 3))
         polys.append((2, 3, 2, True, None))
     for nv, deg, bo, ad, r in polys:
         out.append(dict(id="poly-%dvar-deg%d-bo%d-%s" % (nv, deg, bo, "adaptive" if ad else "fixed%d" % r), kind="poly", nvar=nv, deg=deg,
